@@ -95,7 +95,26 @@ func runC47(p *core.Prog, r *core.Report) {
 	der := []core.Derived{{Name: "epoch>=unpaidSince", Alts: [][]string{{"epoch>=unpaid(true-form)"}, {"epoch>=unpaid(false-form)"}}}}
 	r1 := r.Rule("C47.R1", "Shard.setEpochEventHandler: DeleteContainer is dominated by payments enabled, payment check ok, unpaidSince >= 0 and (epoch - unpaidSince) >= grace (>= 3)", 4)
 	core.CheckEffectsFn(p, r1, fn, core.EffectRule{Min: 1, Guards: guards, Derived: der,
-		Effect: core.CallTo("(*pkg/local_object_storage/shard.Shard).DeleteContainer", "(*pkg/local_object_storage/shard.Shard).InhumeContainer", "(*pkg/local_object_storage/metabase.DB).InhumeContainer"),
+		Effect: func(pp *core.Prog, in ssa.Instruction) (string, bool) {
+			c, ok := in.(ssa.CallInstruction)
+			if !ok {
+				return "", false
+			}
+			n := core.CalleeName(c)
+			switch n {
+			case "(*pkg/local_object_storage/shard.Shard).DeleteContainer", "(*pkg/local_object_storage/shard.Shard).InhumeContainer", "(*pkg/local_object_storage/metabase.DB).InhumeContainer":
+				return n, true
+			}
+			// a helper of the same package that ends in the metabase's container removal
+			if cal := core.StaticCallee(c); cal != nil && cal.Blocks != nil && core.FuncPkg(cal) == core.FuncPkg(fn) &&
+				pp.Reaches("C47.container-removal", cal, func(x ssa.Instruction) bool {
+					cc, isC := x.(ssa.CallInstruction)
+					return isC && core.CalleeName(cc) == "(*pkg/local_object_storage/metabase.DB).InhumeContainer"
+				}) {
+				return "container removal via " + n, true
+			}
+			return "", false
+		},
 		Need: func(string) []string {
 			return []string{"payments-enabled", "payment-check-ok", "unpaid-since-nonneg", "grace-period-elapsed"}
 		}})
